@@ -112,7 +112,7 @@ static void *warm_thread(void *p) { (void)p; while (!warm_go) usleep(500); retur
 static void warm_thread_cache(void)
 {
 	static int done; if (done) return; done = 1;
-	enum { NW = 64 }; pthread_t th[NW]; int n = 0;
+	enum { NW = 32 }; pthread_t th[NW]; int n = 0;
 	for (int i = 0; i < NW; i++) if (pthread_create(&th[n], NULL, warm_thread, NULL) == 0) n++;
 	warm_go = 1;
 	for (int i = 0; i < n; i++) pthread_join(th[i], NULL);
